@@ -81,8 +81,12 @@ class Dmn(Family):
     OFFS = [0, 0x1000, 0x4000, 0x2000, 0x800, 0x1800]
     UAS = [0x7f0000000000, 0x7f0000100000, 0x7f0000200000, 0xffffffffffff0000, 0x10000, 0x7f0000300010, 0x8000000000000000]
 
+    lowmem = False
+
     def region(self, rng, bad=False):
         gpa = rng.choice(self.GPAS[:8]) if rng.chance(9, 10) else rng.choice(self.GPAS)
+        if self.lowmem and not bad and rng.chance(19, 20):
+            gpa = rng.choice(self.GPAS[:7])
         size = rng.choice(self.SIZES)
         off = rng.choice(self.OFFS[:4]) if not bad else rng.choice(self.OFFS)
         ua = rng.choice(self.UAS) + 0x10000 * rng.below(4)
@@ -96,7 +100,7 @@ class Dmn(Family):
         if not table or rng.chance(1, 8):
             return rng.choice(self.GPAS) + rng.choice([0, 8, 0xff8, 0x1000])
         r = rng.choice(table)
-        return (r[0] + rng.choice([0, 8, 0x10, r[1] - 8, r[1] - 4, r[1], r[1] // 2, 0x800, -8])) % 2**64
+        return (r[0] + rng.choice([0, 8, 0x10, r[1] - 8, r[1] - 4, r[1], r[1] // 2, 0x800, -8, 0xff8, 0xffc, 0xff0, 0x1000, 0x1ff8])) % 2**64
 
     def uprobe(self, rng, table, align):
         if not table or rng.chance(1, 10):
@@ -110,8 +114,20 @@ class Dmn(Family):
         maxq = rng.choice([256, 256, 64, 1024, 32768])
         cfg[1] = VN(maxq)
         steps = [st("set_protocol_features", [W.PF_ALL])]
-        for f, sz in ((1, 0x8000), (2, 0x8000), (3, 0x8000)):
+        for f, sz in ((1, 0x8000), (2, 0x8000), (3, 0x8000), (4, 0x40000)):
             steps.append(st("file_size", [f, sz]))
+        self.lowmem = logging = rng.chance(1, 2)      # histories with a dirty log keep guest memory where a log can cover it
+        log = [None]
+        def log_reads():
+            if log[0] is None:
+                return
+            size, off = log[0]
+            words = sorted({(r[0] // 4096) // 8 for r in table} | {((r[0] + r[1] - 1) // 4096) // 8 for r in table})
+            for w in words[:4]:
+                if w < size + 2:
+                    steps.append(st("guest_read", [4, max(0, off + w - 1), 4]))
+            steps.append(st("guest_read", [4, max(0, off - 2), 4]))
+            steps.append(st("guest_read", [4, max(0, off + size - 2), 4]))
         table = []
         gone = []                           # regions that were in the table earlier
         ev = [200]
@@ -172,7 +188,7 @@ class Dmn(Family):
                             break
         table_op(False)
         for i in range(depth):
-            k = rng.below(20)
+            k = rng.below(21)
             q = rng.below(nq) if rng.chance(9, 10) else rng.choice([nq, 255, 256, 70000])
             late = failing and i >= depth - 3
             if k <= 2:
@@ -232,10 +248,46 @@ class Dmn(Family):
             elif k == 18:
                 steps.append(st("regions"))
                 steps.append(st("backend_log"))
-            else:
+            elif k == 19 and logging:
+                need = max([((r[0] + r[1] - 1) // 4096) // 8 + 1 for r in table] or [1])
+                size = rng.choice([need, need, need + 1, 0x20100, 0x1000 if need <= 0x1000 else need])
+                off = rng.choice([0, 0, 0x1000, 0x3000])
+                if late or rng.chance(1, 10):
+                    size = rng.choice([max(1, need - 1), 0, need])
+                    off = rng.choice([0, 0x800, 0x1000])
+                if off + size <= 0x40000:
+                    steps.append(st("set_log_base", [size, off, 4]))
+                    if size >= need and off % 0x1000 == 0 and size > 0:
+                        log[0] = (size, off)
+                    if table and rng.chance(1, 2):
+                        # 2..16 concurrent writers on pages that share log bytes
+                        r = rng.choice(table)
+                        pages = max(1, r[1] // 4096)
+                        nw = 2 + rng.below(15)
+                        gpas = [r[0] + 4096 * (i % pages) + 16 * i for i in range(nw)]
+                        steps.append(st("par_write", gpas, rng.bytes(8)))
+                    big = [r for r in table if r[1] >= 0x2000]
+                    if big and rng.chance(2, 3):
+                        # a write that ends exactly on an inner page boundary, one that starts on it, one that crosses it
+                        r = rng.choice(big)
+                        d = rng.choice([(0xff8, 8), (0x1000, 8), (0xffc, 8), (0xfff, 1), (0xff0, 16), (0xfff, 2)])
+                        steps.append(st("write_mem", [r[0] + d[0]], rng.bytes(d[1])))
+                    # a few writes right away, then a look at the log
+                    for _ in range(1 + rng.below(3)):
+                        steps.append(st("write_mem", [self.probes(rng, table)], rng.bytes(rng.choice([8, 8, 4, 16, 1]))))
+                    log_reads()
+            elif k == 19:
                 steps.append(st("read_mem", [self.probes(rng, table), 8]))
+            else:
+                log_reads()
+        if log[0] is not None and rng.chance(1, 2):
+            # the memory table changes while the log is in force: writes into the new memory must still be logged
+            table_op(False)
+            for r in table[-2:]:
+                steps.append(st("write_mem", [r[0] + rng.choice([0, 8, r[1] - 8, r[1] // 2])], rng.bytes(8)))
         steps.append(st("regions"))
         steps.append(st("backend_log"))
+        log_reads()
         for r in table[:3]:
             steps.append(st("read_mem", [r[0] + r[1] - 8, 8]))
             steps.append(st("guest_read", [r[4], r[3], 8]))
